@@ -177,6 +177,15 @@ CLAIMED["C19"] = dict(cat="proof", ref="DESIGN.md §5 C19, §12",
    note="composition through the load loop observed, not proved; files are real files in a scratch directory (removed after the run); model==implementation of _inject_schema "
         "observed by correspondence",
    tech="Lean 4 step theorems on the injection function + independent inliner against the implementation")
+CLAIMED["C20"] = dict(cat="proof", ref="DESIGN.md §5 C20, §12",
+   text="Lean theorems c20_generated_conforms (for EVERY oracle standing for the library's random source — randint returns some integer of its range, random() some "
+        "float, getrandbits some bytes — a datum gen_data returns conforms to the schema by Spec.conforms, the relation validate implements (C10) and the writers accept "
+        "(C01/C02); any depth, through by-name references; plain schemas whose records have distinct field names) and c20_exact_count (generate_many yields exactly n "
+        "values). Implementation: schemas of the generator incl. logical types and recursive types, n in {0,1,3}, several random seeds: count, validate, schemaless and "
+        "container write + read back; every generated value must lie in the image of the model generator (Generate.inImage) and conform by Spec.conforms.",
+   note="termination is not claimed: known finding F6 (self-reference through an array or map never returns); logical types are checked on the implementation only; "
+        "model==implementation observed through the image check (the random streams themselves cannot be aligned)",
+   tech="Lean 4 proof over an arbitrary random oracle + image/conformance check of the implementation's values")
 PENDING = {}
 
 def main():
